@@ -70,7 +70,7 @@ def _degree_of_deposit(ctx, f, stmt, value):
             if v is None:
                 results.append((Poly.sym(value.id), set()))
                 continue
-            p = to_poly(v)
+            p = to_poly(expand(f, v))
             # other definitions feeding the previous value
             prev = set()
             for s_, val_ in local_defs(f, value.id):
